@@ -24,7 +24,7 @@ KINDS = [("key", "KEY_OPEN", "HDR_INIT_KEY", "HDR_CHECK_KEY"), ("val", "VAL_OPEN
 WANT_OPTS = {"read": True, "write": True, "create": True, "truncate": False}
 
 
-def check(ctx):
+def _check_own(ctx):
     prog = ctx.prog
     R = Roles(prog)
     io = io_effects(prog)
@@ -127,3 +127,9 @@ def check_seedless(ctx, prog, rule="placement-process-independent"):
     fin = [(b, t) for b, t in hv.calls() if (t.get("callee") or "") == "core::hash::Hasher::finish"]
     hs = [(b, t) for b, t in hv.calls() if (t.get("callee") or "") == "core::hash::Hash::hash"]
     ctx.check(len(fin) == 1 and len(hs) == 1, rule, "hash-then-finish", "hash_value is not hash(self) then finish()", where=where(hv))
+
+
+def check(ctx):
+    _check_own(ctx)
+    from .engine import import_rules
+    import_rules(ctx, "c07", {"stored-count-wins"})
